@@ -18,7 +18,8 @@ RULE = ("hybrid tensors (per-mode TT|CP x factor none|narrow|square|wide, ranks 
         "the disjoint pair (m, f & ~m), any = 1, total >= component, dimension_distribution sums to 1, mean_dimension = sum |S| D_S / Var >= 1; "
         "mean_dimension / dimension_distribution with mask and order arguments; every call gets fresh copies of the marginals, which are "
         "compared with the originals afterwards (bit-exact), as are the tensor's cores. Default dtype float64 (1e-8 absolute on indices, "
-        "which are O(1) ratios); float32 default for 8% of the cases (float64 tensor under the PyTorch default dtype; 1e-5). "
+        "which are O(1) ratios); float32 default for 8% of the cases (float64 tensor and float64 masks while torch's default dtype is its "
+        "factory setting float32; 1e-5). "
         "distinct = (format signature, shape, ranks, marginal kinds, mask formula, dd); non-trivial: always (>= 2 modes)")
 TRUSTED = ["the NumPy inclusion-exclusion ANOVA (props/_c_anova.py) on PT.dense() is the oracle",
            "float64 round-off: with Var >= 1e-6*max|t|^2 the ratio of two inner products is accurate to ~1e-10; masked denominators below 1e-6 of "
@@ -118,7 +119,7 @@ def run_case(ctx, case):
             if not state["modified_reported"]:
                 state["modified_reported"] = True
                 ctx.oracle("%s modified the caller's marginal vectors (normalised them in place)" % op, case,
-                           cls={"op": base(op), "predicate": "marginals that do not sum to 1: the caller's arrays are normalised in place"})
+                           cls={"op": base(op), "predicate": "marginals given and not summing exactly to 1: the caller's arrays are normalised in place"})
         if cmp_struct(from_tn(tt), before, True) is not None:
             fail(op, "modified the cores/factors of its tensor operand", "tensor operand modified; " + pcls)
         if r[0] == "err":
@@ -182,7 +183,7 @@ def run_case(ctx, case):
         masks.append(("weighting tensor", lambda: wm.to_tn(), wm.dense(), False))
     vals = {}
     for name, mk, tab, is01 in masks:
-        mres = with_dd(dd, lambda: safe(mk))
+        mres = with_dd("float64", lambda: safe(mk))     # masks are always float64 tensors: only the routine under test sees `dd`
         if mres[0] == "err" or not close(as_np(mres[1]), tab, rtol=tol)[0]:
             ctx.count("mask_unusable:" + name)     # Boolean formulas / automata are C15/C16's business
             continue
@@ -200,8 +201,8 @@ def run_case(ctx, case):
             """names the class only: if the same call passes with a plain-TT copy of the mask, the mask's format is the predicate"""
             if name != "weighting tensor" and not any(U is not None for U in mask.Us):
                 return pcls + mextra
-            r = with_dd(dd, lambda: safe(lambda: as_np(tn.sobol(tt, tn.Tensor(torch.tensor(np.asarray(tab, dtype=np.float64))),
-                                                                marginals=to_torch_marginals(case["marginals"]), normalize=normalize))))
+            plain = with_dd("float64", lambda: tn.Tensor(torch.tensor(np.asarray(tab, dtype=np.float64))))
+            r = with_dd(dd, lambda: safe(lambda: as_np(tn.sobol(tt, plain, marginals=to_torch_marginals(case["marginals"]), normalize=normalize))))
             return mextra[2:] if (r[0] == "ok" and agrees(r[1], np.asarray(e, dtype=np.float64), sc)) else pcls + mextra
 
         got = call("sobol", lambda marg: tn.sobol(tt, mask, marginals=marg), mextra)
@@ -223,7 +224,8 @@ def run_case(ctx, case):
         fail("sobol", "total index %r below the variance component %r" % (vals["x_n"], vals["only(x_n)"]))
 
     # ---- vector-valued mask: weight_one_hot
-    got = call("sobol(weight_one_hot)", lambda marg: tn.sobol(tt, tn.weight_one_hot(N, N + 1), marginals=marg))
+    oh = with_dd("float64", lambda: tn.weight_one_hot(N, N + 1))
+    got = call("sobol(weight_one_hot)", lambda marg: tn.sobol(tt, oh, marginals=marg))
     check("sobol(weight_one_hot)", got, np.array(Dk) / var)
 
     # ---- mean dimension, dimension distribution
@@ -240,7 +242,7 @@ def run_case(ctx, case):
     # with a mask
     den = weighted(f1.astype(float))
     if den >= 1e-6 * var:
-        mres = with_dd(dd, lambda: safe(lambda: formula_mask(case["formula"], case["mask_round"])))
+        mres = with_dd("float64", lambda: safe(lambda: formula_mask(case["formula"], case["mask_round"])))
         if mres[0] == "ok" and close(as_np(mres[1]), f1.astype(float), rtol=tol)[0]:
             mask = mres[1]
             mextra = "; mask " + ("with Tucker factors (e.g. after round())" if any(U is not None for U in mask.Us) else "plain TT")
